@@ -44,7 +44,7 @@ CLAIMED = {
          "spacing and distance of either sign (unit-modulus phase grids, Parseval of the 2-D DFT, |1/(i lambda z)|^2, |Dz1/Dz2| = 1/m); the "
          "model is executed at binary64 against the implementation on every case; linearity is covered by the correspondence and the falsifier."),
    ref="5 C10",
-   note="Hand model coq/model/Optics.v tied by correspondence (1e-8); Reals axioms; linearity not yet a Coq theorem; numpy-float unit magnification is a known finding."),
+   note="Hand model coq/model/Optics.v tied by correspondence (1e-8); Reals axioms; linearity not yet a Coq theorem; the numpy-float unit-magnification defect found by this check was repaired (289e689)."),
  "C11": dict(
    technique="Coq proof of the group laws and of lens = one-step identity over a hand model + vm_compute correspondence + numerical physics falsifier",
    text=("Machine-checked proofs that unit-magnification angular-spectrum propagation is a one-parameter group (z = 0 identity, distances add for "
@@ -147,7 +147,7 @@ CLAIMED = {
          "interpolation contract: decides aotools' coordinate/axis handling), that the azimuthal average of a constant image is that constant "
          "and every value lies within the data range (rings proved non-empty), and that the encircled-energy curve of a non-negative image is "
          "within [0,1], non-decreasing and 0 for an empty mask (nested circles from C14). Binning is compared bit-exactly, zoom with every "
-         "spline evaluation recorded, radial reductions at 1e-12. zoom (interp2d) being unusable and zoom_rbs rejecting integer sizes are known findings."),
+         "spline evaluation recorded, radial reductions at 1e-12. zoom (interp2d) being unusable with the installed SciPy is a known finding; zoom_rbs rejecting integer sizes was repaired (5b6329f)."),
    ref="5 C16",
    note="FITPACK spline enters by contract (interpolation, linearity, polynomial reproduction tested numerically); numpy.interp/argmin of encircled_energy only tested."),
  "C06": dict(
@@ -163,11 +163,11 @@ CLAIMED = {
    note="The footprint analysis is in the trusted base (cross-checked dynamically both ways); PCG64/OS-entropy facts (different seeds differ) observed only."),
  "C20": dict(
    technique="Coq proof over an effect model instantiated with a footprint table regenerated from source + dynamic purity cross-check of every public function",
-   text=("Same regenerated footprint table: Coq checks that every public function has a pure footprint except six listed known findings (and two "
+   text=("Same regenerated footprint table: Coq checks that every public function has a pure footprint except one listed known finding (optimal_grouping's use of the global generator; and two "
          "justified over-approximations) -- the full statement is refuted on the faithful table -- and proves that programs of footprint-pure calls "
          "on shared arrays leave every array and the hidden state unchanged and that equal calls return equal results in any order. Every public "
          "function is exercised through a recipe with read-only arguments, checksummed copies, repeated calls under different global generator "
-         "states and memory-sharing tests, and the observations must agree with the table; batch-vs-item clauses and random programs are run by the falsifier."),
+         "states and memory-sharing tests, and the observations must agree with the table; batch-vs-item clauses and random programs are run by the falsifier. Five defects found by this check (in-place writes in four image-processing functions, angularSpectrum returning its argument) were repaired (de54f5b d3fd2bb 735cafe a0878b3 38ff11a)."),
    ref="5 C20",
    note="Analysis heuristics trusted but cross-checked in both directions; functions that cannot be exercised are listed in the evidence with the reason."),
  "C07": dict(
